@@ -275,7 +275,7 @@ def source_facts(ctx):
         ctx.broken.append("fact extraction failed: %r" % (ex,))
         facts = {"ts": {}, "table": {}, "of": {}, "notes": [repr(ex)[:500]]}
         os.makedirs(os.path.dirname(gen_v), exist_ok=True)
-        ts = {k: False for k in ("ts_global_static", "ts_global_atomic", "ts_value_atomic", "ts_value_init_next",
+        ts = {k: False for k in ("ts_global_static", "ts_global_atomic", "ts_global_const_init", "ts_value_atomic", "ts_value_init_next",
                                  "ts_default_ctor_defaulted", "ts_copy_ctor_inits_value", "ts_conv_returns_value")}
         ts.update({"ts_next": "ROther"}, **{k: ["TUnknown"] for k in ("ts_renew", "ts_copy_ctor", "ts_move_ctor", "ts_copy_assign", "ts_move_assign")})
         open(gen_v, "w").write(factgen.coq_text(ts, {m: ["SUnknown"] for m in factgen.OMETHS},
@@ -300,12 +300,28 @@ def run(ctx):
     priv = True
     nbroken = len(ctx.broken)
     jobs = [dict(sources=["harness.cpp"], out="harness", repo_sources=REPO_SRC, sanitize="asan", flags=["-DC19_PRIV"]),
-            dict(sources=["harness.cpp"], out="threads", repo_sources=REPO_SRC, sanitize=None, opt="-O2")]
+            dict(sources=["harness.cpp"], out="threads", repo_sources=REPO_SRC, sanitize=None, opt="-O2", flags=["-DC19_PRIV", "-DC19_COUNTER"])]
+    # static-initialisation scenario: the harness translation unit before / after TimeStamp.cpp in link order
+    ts_cpp = os.path.join(ctx.repo, REPO_SRC[0])
+    jobs.append(dict(sources=["harness.cpp"], out="static_first", repo_sources=REPO_SRC, sanitize="asan", flags=["-DC19_PRIV", "-DC19_STATIC_INIT"]))
+    jobs.append(dict(sources=[ts_cpp, "harness.cpp"], out="static_last", repo_sources=[], sanitize="asan", flags=["-DC19_PRIV", "-DC19_STATIC_INIT"]))
     if ctx.thorough():
         jobs.append(dict(sources=["harness.cpp"], out="threads_tsan", repo_sources=REPO_SRC, sanitize="tsan", opt="-O1"))
     exes = ctx.cxx_many(jobs)
     exe, thr = exes[0], exes[1]
-    tsan = exes[2] if ctx.thorough() else None
+    static_exes = [("harness objects initialised BEFORE TimeStamp.cpp (harness first in link order)", exes[2]),
+                   ("harness objects initialised AFTER TimeStamp.cpp (TimeStamp.cpp first in link order)", exes[3])]
+    tsan = exes[4] if ctx.thorough() else None
+    counter_exe = thr
+    if thr is None:
+        # the counter probe reaches into TimeStamp::global: if that no longer compiles, build the threads test without it
+        ctx.broken[:] = [b for b in ctx.broken if b != "harness build threads"]
+        thr = ctx.cxx(["harness.cpp"], "threads", repo_sources=REPO_SRC, sanitize=None, opt="-O2")
+        ctx.log("the counter probe (presets the private static TimeStamp::global) does not compile against this tree: skipped")
+    if exe is None:
+        # without the private members the static scenario does not build either: not a separate finding
+        ctx.broken[:] = [b for b in ctx.broken if b not in ("harness build static_first", "harness build static_last")]
+        static_exes = []
     if exe is None:
         # the private members may have been renamed: fall back to the public interface only
         exe2 = ctx.cxx(["harness.cpp"], "harness_pub", repo_sources=REPO_SRC, sanitize="asan")
@@ -456,6 +472,61 @@ def run(ctx):
             ctx.broken.append("correspondence C19 model vs real code on case %r: impl=%r model=%r (impl satisfies the property oracle)"
                               % (c, hard(ilines[i])[:200], hard(mlines[i])[:200]))
 
+    # ------------------------------------------------------------ objects created, notified and polled before main()
+    GLOB_OK = "pre:increasing,010 main:increasing,101010"
+    rs = ctx.rng("static")
+    scases = [("H", 0), ("H nb:0 no:0:0 n:0 p:0 n:0 n:0 no:1:0 p:0 p:0 p:1 db:0 p:0", 3), ("H nb:0 no:0:0 no:1:0 n:0 p:0 p:1 p:0", 4),
+              ("H nb:1 n:1 no:2:1 p:2 n:1 p:2 p:2", 7)]
+    for _ in range(ctx.pick(20, 120)):
+        c = gen_H(rs, 16)
+        scases.append((c, rs.randint(0, len(c.split()) - 1)))
+
+    def run_static(sexe, ops, k):
+        rc, out, err = ctx.run_exe(sexe, ["static"], env={"C19_PRE": " ".join(ops[:k]), "C19_POST": " ".join(ops[k:])}, timeout=60)
+        line = out.strip("\n")
+        parts = line.split(" ## ")
+        return rc, (parts[0] if parts else ""), (parts[2] if len(parts) > 2 else ""), err
+
+    def static_bad(sexe, ops, k):
+        if not valid_H(ops):
+            return False
+        rc, hd, gl, err = run_static(sexe, ops, min(k, len(ops)))
+        exp = oracle_H(ops, True) if ops else ""
+        return rc != 0 or gl != GLOB_OK or norm_hard(hd) != norm_hard(exp)
+    sstat = {"runs": 0}
+    for (what, sexe) in static_exes:
+        if not sexe:
+            continue
+        found = None
+        for (c, k) in scases:
+            ops = c.split()[1:]
+            sstat["runs"] += 1
+            ctx.count(1)
+            if static_bad(sexe, ops, k):
+                found = (ops, k)
+                break
+            if k and len(ops) > k:
+                ctx.nontriv("static %s %d %s" % (c, k, what[:30]))
+        if found:
+            ops, k = found
+            pre, post = ops[:k], ops[k:]
+            # shrink: first the part run in main, then the part run before main
+            if static_bad(sexe, [], 0):
+                pre, post = [], []             # the namespace-scope objects alone show it
+            else:
+                post = vlib.shrink_list(post, lambda q: static_bad(sexe, pre + q, len(pre)))
+                pre = vlib.shrink_list(pre, lambda q: static_bad(sexe, q + post, len(q)))
+            ops = pre + post
+            rc, hd, gl, err = run_static(sexe, ops, len(pre))
+            ctx.violation("objects with static storage duration / a history begun before main(): the real code contradicts the property text (%s)" % what,
+                          {"case": "H " + " ".join(ops), "executed_before_main": " ".join(pre), "executed_in_main": " ".join(post), "link_order": what,
+                           "observed": hd, "required": oracle_H(ops, True) if ops else "",
+                           "namespace_scope_objects_observed": gl, "namespace_scope_objects_required": GLOB_OK,
+                           "legend": "namespace-scope TimeStamp, Observable, two Observers, TimeStamp; pre: their stamps in creation order, then poll A / notify / poll A / poll A "
+                                     "before main; main: a fresh and a renewed stamp larger than all earlier ones, then poll B, B / notify x2 / poll A, A, B, B",
+                           "rc": rc, "stderr_tail": err[-1200:],
+                           "rerun": "C19_PRE='%s' C19_POST='%s' %s static" % (" ".join(pre), " ".join(post), sexe)})
+    ctx.cov["static_init_scenario"] = sstat
     # ------------------------------------------------------------ threads
     configs = [(2, 100000), (3, 100000), (4, 100000), (8, 100000), (16, 100000)]
     rounds = ctx.pick(2, 6)
@@ -483,10 +554,10 @@ def run(ctx):
     # the counter is a 64-bit size_t: a value narrowed on its way out of nextValue() repeats / decreases when the counter
     # passes 2^31, 2^32 ...; wrap-around at 2^64 itself is outside the property's reach (model counter unbounded)
     probes = {"runs": 0, "skipped": 0}
-    if priv and not bad:
+    if counter_exe and not bad:
         for start in ((1 << 31) - 8, (1 << 32) - 8, (1 << 63) - 8, (1 << 16) - 8):
             for (n, it) in ((1, 16), (2, 16)):
-                rc, out, err = ctx.run_exe(exe, ["counter", str(start), str(n), str(it)], timeout=120)
+                rc, out, err = ctx.run_exe(counter_exe, ["counter", str(start), str(n), str(it)], timeout=120)
                 probes["runs"] += 1
                 o = out.strip()
                 if o.startswith("SKIP"):
@@ -504,7 +575,7 @@ def run(ctx):
                           {"counter_start": bad[5], "threads": bad[0], "iterations_per_thread": bad[1], "rc": bad[2], "observed": bad[3], "stderr_tail": bad[4],
                            "required": "every stamp created or renewed is larger than all earlier ones of its thread and distinct from all others, also when the "
                                        "64-bit counter passes 2^31 / 2^32 / 2^63",
-                           "rerun": "%s counter %d %d %d" % (exe, bad[5], bad[0], bad[1])})
+                           "rerun": "%s counter %d %d %d" % (counter_exe, bad[5], bad[0], bad[1])})
             bad = None
     ctx.cov["counter_probes"] = probes
     if bad:
